@@ -25,7 +25,7 @@ Definition within (a o tol : Z) : bool := (Z.abs (a - o) <=? tol).
 
 Definition tcase_model_ok (t : tcase) : bool :=
   let s := run (t_cfg t) (conn_start (t_cfg t)) (t_evs t) in
-  N.eqb (phase_idx (ph s)) (match t_phase t with 4%N => 2%N | x => x end) &&
+  N.eqb (phase_idx (ph s)) (if N.eqb (t_phase t) 4 then 2%N else t_phase t) &&
   match closed s, t_closed t with
   | Some a, Some o => within a o (t_tol t)
   | None, None => true
@@ -45,16 +45,14 @@ Definition spec_limit (c : cfg) (p : N) : option Z :=
   end.
 
 Definition tcase_prop_ok (t : tcase) : bool :=
-  match t_phase t with
-  | 4%N => t_reply t      (* slow origin: the exchange must complete, the socket must not be cut *)
-  | p =>
-    match spec_limit (t_cfg t) p, t_closed t with
+  if N.eqb (t_phase t) 4 then t_reply t   (* slow origin / slow body: the exchange must complete, the socket must not be cut *)
+  else
+    match spec_limit (t_cfg t) (t_phase t), t_closed t with
     | Some L, Some o => (t_enter t + L - early_tol <=? o) && (o <=? t_enter t + L + t_tol t)
     | Some _, None => false      (* not closed although the limit elapsed within the watch *)
     | None, Some _ => false      (* closed although no limit applies *)
     | None, None => true
-    end
-  end.
+    end.
 
 Record acase := {
   a_cfg : cfg;
